@@ -120,7 +120,10 @@ fn run_actor(ai: usize, actor: &Actor, pools: &[rayon_core::ThreadPool], snaps: 
          Op::Run { pool } => {
             let inst = inst.as_mut().expect("harness: Run before New");
             in_pool(pools, pool, || inst.run());
-            snaps.lock().unwrap().push(Snap { actor: ai, op: oi, ret: None, rels: inst.snapshot() });
+            // snapshot first: reading lattice rows takes (simulated) row locks, i.e. may deschedule this
+            // task, which must not happen while the harness' std mutex is held
+            let rels = inst.snapshot();
+            snaps.lock().unwrap().push(Snap { actor: ai, op: oi, ret: None, rels });
          },
          Op::RunTimeout { pool, timeout_ns, tick_ns, jumps } => {
             let inst = inst.as_mut().expect("harness: RunTimeout before New");
@@ -128,7 +131,8 @@ fn run_actor(ai: usize, actor: &Actor, pools: &[rayon_core::ThreadPool], snaps: 
             let d = if *timeout_ns == u64::MAX { Duration::MAX } else { Duration::from_nanos(*timeout_ns) };
             let ret = in_pool(pools, pool, || inst.run_timeout(d));
             let ret = ret.expect("harness: variant has no run_timeout");
-            snaps.lock().unwrap().push(Snap { actor: ai, op: oi, ret: Some(ret), rels: inst.snapshot() });
+            let rels = inst.snapshot();
+            snaps.lock().unwrap().push(Snap { actor: ai, op: oi, ret: Some(ret), rels });
          },
       }
    }
